@@ -51,6 +51,7 @@ func init() {
 		{"url", enumURL, checkURL},
 		{"radix", enumRadix, checkRadix},
 		{"xml", enumXML, checkXML},
+		{"xmlns", enumXMLNS, checkXMLNS},
 		{"csv", enumCSV, checkCSV},
 		{"held", enumHeld, checkHeld},
 		{"unchanged", enumUnchanged, checkUnchanged},
